@@ -150,6 +150,20 @@ class MemPut(_MemBase):
         return res
 
 
+def _memput_probes(self, case):
+    from .c13_clone import _probe
+    return [_probe(self.name, "rewrite-on-clone-same-period")]
+
+
+def _memput_judge(self, I, case, call, nat):
+    from .c13_clone import _NativeJudge
+    return _NativeJudge.judge_native(self, I, case, call, nat)
+
+
+MemPut.probes = _memput_probes
+MemPut.judge_native = _memput_judge
+
+
 class MemDelete(_MemBase):
     name = f"{MEM}.delete"
     cases = ("dated", "eternal", "everything")
@@ -468,7 +482,8 @@ class HolderGetArrayFull(Contract):
     name = f"{HOLDER}.get_array"
     prop = ("C17", "C01", "C14")
     top_level = True
-    cases = tuple((c[0], n) for c in CONFIGS for n in (False, True)) + tuple((c[0], "not-to-be-cached") for c in CONFIGS)
+    cases = tuple((c[0], n) for c in CONFIGS for n in (False, True)) + tuple((c[0], "not-to-be-cached") for c in CONFIGS) + \
+        (("memory", "neutralised-read-twice"),)
     descr = ("reading a holder returns the stored view of the period whatever the storage setting (memory first, then disk) and "
              "whatever the caching options (blacklisted variable, opted-out simulation, do-not-store), None if nothing is stored; "
              "a neutralised variable reads as its default whatever is stored")
@@ -478,8 +493,17 @@ class HolderGetArrayFull(Contract):
         cfg, neut = case
         _, disk, eternal = [c for c in CONFIGS if c[0] == cfg][0]
         nocache = neut == "not-to-be-cached"
-        w = HWorld(I, ctx, disk=disk, eternal=eternal, neutralized=(neut is True), do_not_store=nocache, blacklist=nocache, opt_out=nocache)
-        return {"self": w.holder, "period": sym_period(I, ctx, "month"), "__w": w}
+        w = HWorld(I, ctx, disk=disk, eternal=eternal, neutralized=(neut is True or neut == "neutralised-read-twice"), do_not_store=nocache, blacklist=nocache, opt_out=nocache)
+        a = {"self": w.holder, "period": sym_period(I, ctx, "month"), "__w": w}
+        if neut == "neutralised-read-twice":
+            # history: the neutralised variable was read before (another period): every read yields an array of its own
+            f, _ = self.target(I)
+            ctx.depth += 1
+            try:
+                a["__earlier"] = I.inline_call(ctx, f, [], {"self": w.holder, "period": sym_period(I, ctx, "month", "p_earlier")})
+            finally:
+                ctx.depth -= 1
+        return a
 
     @staticmethod
     def local_contracts():
@@ -492,6 +516,9 @@ class HolderGetArrayFull(Contract):
             return [("no-exception", False)]
         if w.var.fields["is_neutralized"]:
             d = log_of(ctx, "default_array")
+            if "__earlier" in a:
+                return [("every-read-of-a-neutralised-variable-yields-a-default-array-of-its-own (never one handed out before)",
+                         len(d) == 2 and out[1] is d[1]["value"] and out[1] is not a["__earlier"])]
             return [("neutralised-variable-reads-as-its-default", len(d) == 1 and out[1] is d[0]["value"])]
         pres, v = w.view(a["period"])
         r = unwrap(out[1])
